@@ -1,3 +1,5 @@
+\* expected to fail: reflect.Type.Method is not observed by checkReflect (layer B drift, report only)
 SPECIFICATION Spec
-INVARIANTS NeedAll
+INVARIANTS
+  NeedAll
 CHECK_DEADLOCK FALSE
